@@ -11,14 +11,14 @@ def check_location(src_by_file, d):
     m = re.match(r"(\d+)@(.*):(\d+)-(\d+):(\d+):(\d+):(.*)$", d)
     if not m: return "unparsable diagnostic " + d
     code, fname, s, e, line, off, status = m.group(1), m.group(2), int(m.group(3)), int(m.group(4)), int(m.group(5)), int(m.group(6)), m.group(7)
+    if status.startswith("hdrline"): return "rendered header shows line %s, the diagnostic's line_number is %s" % (status[7:].split(",")[0], line)
     if status != "ok": return "rendering problem: " + status
     if fname not in src_by_file: return "location names unknown file " + fname
     text = src_by_file[fname]
     n = len(text)
     if text == "":
         return None if (s, e) == (0, 0) else "span outside empty file"
-    if not (0 <= s <= e <= n + 1): return "span %d..%d outside the file (%d chars)" % (s, e, n)
-    if s > n: return None
+    if not (0 <= s <= e <= n): return "span %d..%d outside the file (%d chars)" % (s, e, n)
     # the line that contains character offset s
     before = text[:s]
     real_line = before.count("\n") + 1
@@ -82,7 +82,16 @@ def run(tier):
             body = "".join("\t%s%s\n" % (p, "" if p.endswith(";") else ";") for p in parts[:-1]) + "\n" * pad + "\t" + parts[-1] + " // HERE\n"
             src = "// é€ comment\n" * (pad // 3) + PRE + "fn main()\n{\n" + body + "}\n"
             marked.append(("o%d.%d" % (oi, pad), "known-offender:" + code, src))
-    allc = cases + known + multi + marked
+    # the end of the file without a final newline, in every token state; and characters that some renderers
+    # take for line ends although the lexer (and every editor) does not: the line shown is the line reported
+    edges = []
+    for ei, tail in enumerate(['"abc\\', '"abc', "'a", "'", "'\\", "0x", "12ab", "x", "x +", "$", "// c", '"a\\n', "@", "é", '"é\\', "var y = \"q\\"]):
+        for pre in ("fn main() -> i32\n{\n\tvar x = ", ""):
+            edges.append(("e%d.%d" % (ei, len(pre)), "end-of-file", pre + tail))
+    for li, sep in enumerate(["\x0b", "\x0c", "\u0085", "\u2028", "\u2029", "\r"]):
+        for where in ("// a%sb\n", "\tvar s = \"a%sb\";\n"):
+            edges.append(("l%d.%d" % (li, len(where)), "odd-line-separator", "fn main() -> i32\n{\n" + (where % sep) + "\tvar x = nowhere;\n\treturn: 0\n}\n"))
+    allc = cases + known + multi + marked + edges
     impl = C.run_harness("diag", [(c[0], c[2]) for c in allc], ck.work + "/diag", timeout=1800)
     stats = collections.Counter(); codes_seen = collections.Counter(); bad = 0
     for cid, kind, src in allc:
@@ -109,7 +118,14 @@ def run(tier):
             if why:
                 bad += 1
                 crlf = "crlf" if "\r" in src else "lf"
-                ck.violation("bad-location:%s:%s" % (why.split(" ")[0], crlf), "diagnostic %s: %s" % (d, why), "kind: %s\nsource:\n%s" % (kind, src))
+                key = "bad-location:%s:%s" % (why.split(" ")[0], crlf)
+                dm = re.match(r"(\d+)@(.*):(\d+)-(\d+):", d)
+                ftext = files.get(dm.group(2), "") if dm else ""
+                if why.startswith("rendered header") and re.search("[\x0b\x0c\u0085\u2028\u2029]|\r(?!\n)", ftext):
+                    key = "bad-location:rendered-line:odd-line-separator"     # (the listed class D65)
+                elif why.startswith("span") and dm and dm.group(1) == "161" and int(dm.group(4)) == len(ftext) + 1 and ftext.endswith("\\"):
+                    key = "bad-location:span-past-end:trailing-backslash"      # (the listed class D64)
+                ck.violation(key, "diagnostic %s: %s" % (d, why), "kind: %s\nsource:\n%s" % (kind, src))
         if kind == "known-ident":
             hit = False
             for d in diags:
@@ -186,6 +202,27 @@ def run(tier):
             if (int(m.group(1)), int(m.group(2))) != (ln, col):
                 bad += 1; ck.violation("cli-render-position", "penne emit shows E402 at %s:%s, the undefined name is at line %d column %d (in characters)" % (m.group(1), m.group(2), ln, col), "source:\n%s\noutput:\n%s" % (text, out[:1500]))
     ck.log("command line rendering: %d sources with multi-byte characters" % ncli)
+    # the tie of Model/Loc.v: the real Location::combined_with (both argument orders) and comparison_key on
+    # random pairs of locations (equal starts, equal lines, nested, disjoint, touching) = the extracted functions
+    lrng = random.Random(ck.seed + 1313)
+    lcases = []
+    for i in range(600 if tier == "quick" else 30000):
+        def one():
+            s_ = lrng.choice([0, 1, 2, 5, 10, lrng.randrange(200)]); e_ = s_ + lrng.choice([0, 1, 2, 7, lrng.randrange(50)])
+            return [s_, e_, lrng.choice([1, 2, 3, lrng.randrange(1, 40)]), lrng.choice([0, 1, 4, lrng.randrange(80)])]
+        a = one(); b = one()
+        if lrng.random() < 0.3: b[0] = a[0]; b[1] = max(b[1], b[0])
+        if lrng.random() < 0.3: b[2] = a[2]
+        if lrng.random() < 0.2: b[3] = a[3]
+        lcases.append(("l%d" % i, " ".join(str(x) for x in a + b)))
+    limpl = C.run_harness("loc", lcases, ck.work + "/loc", timeout=600)
+    lmodel = C.run_model([("loc", cid, "(%s)" % txt) for cid, txt in lcases], ck.work + "/loc")
+    lbad = 0
+    for cid, txt in lcases:
+        real = "\t".join(limpl.get(cid, ["missing"])); mod = lmodel.get(cid, "MODEL-MISSING")
+        if real != mod:
+            lbad += 1; ck.violation("tie-broken:location-model", "Location::combined_with / comparison_key differ from Model/Loc.v", "locations (start end line offset, twice): %s\nreal : %s\nmodel: %s" % (txt, real, mod))
+    ck.log("location model tie: %d pairs, %d differences" % (len(lcases), lbad))
     if not proof_ok:
         ck.violation("tie-broken:proof", "Props/C13.v no longer checks (a code without a section in docs/errors.md, or a duplicated code)", getattr(ck, "proof_output", "")[-2500:])
     ck.coverage.update(
